@@ -5,6 +5,7 @@ package main
 import (
 	"fmt"
 	"go/types"
+	"os"
 	"strings"
 
 	"golang.org/x/tools/go/ssa"
@@ -320,7 +321,15 @@ func (f *frame) pureCall(in *ssa.Call) {
 				q = "exists"
 			}
 			for m := 0; m < 2; m++ {
-				r[m] = fmt.Sprintf("(%s (%s) %s)", q, strings.Join(decl, " "), body[m].T)
+				bt := body[m].T
+				if pats := autoPatterns(bt, bvs); len(pats) > 0 && os.Getenv("GCV_NOPATTERNS") == "" {
+					ann := ""
+					for _, p := range pats {
+						ann += " :pattern (" + p + ")"
+					}
+					bt = "(! " + bt + ann + ")"
+				}
+				r[m] = fmt.Sprintf("(%s (%s) %s)", q, strings.Join(decl, " "), bt)
 			}
 			if facts != "true" && x.collectFacts {
 				// values loaded under the quantifier are well-typed for every value of the bound
@@ -344,6 +353,15 @@ func (f *frame) pureCall(in *ssa.Call) {
 				r[m] = x.psumTerm(f, callee, args[0][m], args[1][m].T, args[2][m].T, m)
 			}
 			setT(r[0], r[1])
+			return
+		case "lastrand":
+			// the value most recently drawn from the random source in the function under contract
+			if srt, ok := x.comps["Ghost_lastrand"]; ok {
+				setT(f.mem[0].heapOf("Ghost_lastrand", srt), f.mem[1].heapOf("Ghost_lastrand", srt))
+				return
+			}
+			r := x.havocPure("norand", "Int")
+			setT(r, r)
 			return
 		case "isstatus":
 			setT(x.isStatus(args[0][0].T), x.isStatus(args[0][1].T))
@@ -390,7 +408,11 @@ func (f *frame) pureCall(in *ssa.Call) {
 			}
 		case "fresh":
 			// fresh(p): p is a ref allocated after function entry
-			setT(sx(">", x.unboxAny(in.Call.Args[0], args[0][0]), x.entry.allocTop), "false")
+			p := args[0][0].T
+			if _, isSlice := in.Call.Args[0].Type().Underlying().(*types.Slice); isSlice {
+				p = sx("sbase", p)
+			}
+			setT(sx(">", p, x.entry.allocTop), "false")
 			return
 		}
 		if strings.HasPrefix(name, "ghost_") {
